@@ -123,6 +123,10 @@ pub struct Engine {
     pub bufs: std::mem::ManuallyDrop<Vec<HeldBuf>>,
     pub ring_id: usize,
     pub ring_alive: bool,
+    /// The harness gave up its own queue handle (teardown group Q).
+    pub sq_dropped: bool,
+    /// io_uring_enter(GETEVENTS) calls seen so far (C05 rule in `ring_poll`).
+    pub getevents_seen: u64,
     pub sq_entries: u32,
     pub faults_on: bool,
     pub closes: Vec<Task>,
@@ -164,6 +168,8 @@ pub fn draw_kcfg(faults: bool) -> KCfg {
     c.p_complete_in_wait = if sw(50) { 50 } else { 0 };
     c.p_zc_notif_same_batch = tape::pick(site::CFG, &[50, 0, 100]);
     c.p_close_err = if sw(15) { 30 } else { 0 };
+    c.p_notif_survives = if sw(30) { 60 } else { 0 };
+    c.p_prep_fail = if sw(20) { tape::pick(site::CFG, &[15u32, 40]) } else { 0 };
     c.p_pipe_einval = if sw(25) { 40 } else { 0 };
     c.p_sync_cancel_finish = if sw(30) { 50 } else { 0 };
     c
@@ -194,9 +200,13 @@ impl Engine {
         kcfg.random_layout = tape::chance(site::GEOM, 1, 3);
         let direct = prof.direct && tape::chance(site::GEOM, 1, 2);
         let sqpoll = prof.sqpoll && tape::chance(site::GEOM, 1, 6);
+        // Single-issuer rings (wake-ups through a registered message, task
+        // work only run by io_uring_enter(GETEVENTS) with defer_task_run).
+        let single = prof.sqpoll && !sqpoll && tape::chance(site::GEOM, 1, 6);
+        let defer = single && tape::chance(site::GEOM, 1, 2);
         kernel::with(|k| k.cfg = kcfg);
-        trace(&[tag::CFG, sq, cq, u32::from(direct), u32::from(sqpoll)]);
-        ev!("h config sq={sq} cq={cq} direct={direct} sqpoll={sqpoll}");
+        trace(&[tag::CFG, sq, cq, u32::from(direct), u32::from(sqpoll) + 2 * u32::from(single) + 4 * u32::from(defer)]);
+        ev!("h config sq={sq} cq={cq} direct={direct} sqpoll={sqpoll} single_issuer={single} defer={defer}");
 
         let ring = alloc::a10(|| {
             let mut c = a10::Ring::config()
@@ -207,6 +217,12 @@ impl Engine {
             }
             if sqpoll {
                 c = c.with_kernel_thread();
+            }
+            if single {
+                c = c.single_issuer();
+            }
+            if defer {
+                c = c.defer_task_run();
             }
             c.build()
         });
@@ -237,7 +253,7 @@ impl Engine {
         }
         if prof.pools && (prof.force_pool || tape::chance(site::GEOM, 2, 3)) {
             let size = tape::pick(site::GEOM, &[2u16, 1, 4, 8]);
-            let buf = tape::pick(site::GEOM, &[16u32, 8, 64]);
+            let buf = tape::pick(site::GEOM, &[16u32, 8, 64, 24, 48, 5, 100]);
             match alloc::a10(|| a10::io::ReadBufPool::new(w.sq.clone(), size, buf)) {
                 Ok(p) => w.pools.push(p),
                 Err(e) => report::harness_error(format!("pool: {e}")),
@@ -286,6 +302,8 @@ impl Engine {
             bufs: std::mem::ManuallyDrop::new(Vec::new()),
             ring_id,
             ring_alive: true,
+            sq_dropped: false,
+            getevents_seen: 0,
             sq_entries: sq,
             faults_on: true,
             closes: Vec::new(),
@@ -441,7 +459,12 @@ impl Engine {
         if self.tasks[i].polled && tape::chance(site::WAKER, 1, 4) {
             // The future moved to another task: new waker, old one is stale.
             let fired = self.tasks[i].wakers.fired();
-            self.tasks[i].wakers.replace();
+            if tape::chance(site::WAKER, 1, 3) {
+                // Same data pointer, other vtable.
+                self.tasks[i].wakers.replace_by_twin();
+            } else {
+                self.tasks[i].wakers.replace();
+            }
             if fired {
                 self.tasks[i].wakers.current.fired.store(1, std::sync::atomic::Ordering::Release);
             }
@@ -743,7 +766,24 @@ impl Engine {
         let mark = kernel::with(|k| (k.records.len(), k.rings[self.ring_id].seen_sq_tail));
         let old = kernel::set_cur(id, During::Drop);
         let task = self.tasks[i].task.take();
-        drop(task);
+        if tape::chance(site::DROP, 1, 10) {
+            // The future is dropped while its owner unwinds from a panic
+            // (`std::thread::panicking()` is true inside the drop).
+            stats::inc(C::probe_drop_during_unwind);
+            let r = std::panic::catch_unwind(std::panic::AssertUnwindSafe(move || {
+                let _owned = task;
+                std::panic::panic_any(crate::run::AbortRun);
+            }));
+            let Err(p) = r;
+            if p.is::<crate::run::AbortRun>() {
+                crate::run::clear_panic();
+            } else {
+                // A panic from inside a10's drop.
+                crate::run::record_panic(p);
+            }
+        } else {
+            drop(task);
+        }
         kernel::set_cur(old.0, old.1);
         self.tasks[i].dropped = true;
         kernel::with(|k| k.dropped_ops.push(id));
@@ -825,10 +865,35 @@ impl Engine {
             return;
         }
         stats::inc(C::total_ring_polls);
+        // What the kernel holds back until somebody asks for events: deferred
+        // task work (DEFER_TASKRUN) and overflowed completions.
+        let held_before = kernel::with(|k| {
+            let r = &k.rings[self.ring_id];
+            (r.cq_ready() == 0 && !r.cq_mem.dead, r.deferred.len() + r.overflow.len(), r.posted)
+        });
         let old = kernel::set_cur(NO_OP, During::Other);
         let ring = self.w.ring.as_mut().unwrap();
         let res = alloc::a10(|| ring.poll(timeout));
         kernel::set_cur(old.0, old.1);
+        if res.is_ok() && held_before.0 && held_before.1 > 0 {
+            let (held_after, entered) = kernel::with(|k| {
+                let r = &k.rings[self.ring_id];
+                (r.deferred.len() + r.overflow.len(), r.getevents_enters)
+            });
+            // With an empty completion queue Ring::poll has to ask the kernel
+            // (io_uring_enter with GETEVENTS), whatever its timeout: that is
+            // the only way held-back completions ever get published.
+            if held_after >= held_before.1 && entered == self.getevents_seen {
+                violation(
+                    "cq.not-reaped",
+                    format!(
+                        "Ring::poll({timeout:?}) returned with an empty completion queue without asking the kernel for events although {} completion(s) are held back (deferred task work / overflow)",
+                        held_before.1
+                    ),
+                );
+            }
+        }
+        self.getevents_seen = kernel::with(|k| k.rings[self.ring_id].getevents_enters);
         trace(&[tag::RINGPOLL, u32::from(res.is_err())]);
         ev!("h ring.poll({timeout:?}) -> {res:?}");
         if let Err(e) = &res {
@@ -996,6 +1061,23 @@ impl Engine {
         let explicit = tape::choose(site::TARGET, 2) == 1;
         ev!("h {} readbuf", if explicit { "release" } else { "drop" });
         let mut buf = b.buf;
+        // C15: whatever was done to the buffer, releasing it gives back the
+        // slot it was handed out with (address of the slot, its id).
+        let ring = self.ring_id;
+        let expect = kernel::with(|k| {
+            k.observe_pbufs(ring);
+            for (key, p) in k.rings[ring].pbufs.iter_mut() {
+                if let Some(base) = p.base {
+                    let size = p.buf_size as usize;
+                    if b.base >= base && b.base < base + size * p.entries as usize {
+                        p.last_entry = None;
+                        let bid = (b.base - base) / size;
+                        return Some((*key, base + bid * size, bid as u16));
+                    }
+                }
+            }
+            None
+        });
         alloc::a10(|| {
             if explicit {
                 buf.release();
@@ -1005,10 +1087,59 @@ impl Engine {
             }
             drop(buf);
         });
+        if let Some((key, addr, bid)) = expect {
+            let last = kernel::with(|k| {
+                k.observe_pbufs(ring);
+                k.rings[ring].pbufs.get(&key).map(|p| p.last_entry)
+            });
+            if let Some(last) = last {
+                if last != Some((addr, bid)) {
+                    violation(
+                        "readbuf.release-id",
+                        format!(
+                            "releasing the ReadBuf of slot #{bid} put {} into the buffer ring",
+                            match last {
+                                Some((a, i)) => format!("buffer id #{i} with an address {} bytes from the slot", (a as i64) - (addr as i64)),
+                                None => "nothing".to_string(),
+                            }
+                        ),
+                    );
+                }
+            }
+        }
     }
 
     pub fn stdio(&mut self) {
-        let which = tape::choose(site::TARGET, 3);
+        let which = tape::choose(site::TARGET, 4);
+        if which == 3 {
+            // `try_clone`: a regular descriptor is duplicated by the real
+            // dup(2) (the simulated numbers are not real: EBADF), a direct one
+            // cannot be cloned (Unsupported). If a clone does come back it is
+            // one more owner, dropped like every other descriptor.
+            let live = self.w.live_fds();
+            if live.is_empty() {
+                return;
+            }
+            let f = live[tape::choose(site::TARGET, live.len() as u32) as usize];
+            let res = {
+                let fd = self.w.fds[f].as_ref().unwrap();
+                alloc::a10(|| fd.try_clone())
+            };
+            match res {
+                Ok(clone) => {
+                    let (n, d) = ops::fd_num(&clone);
+                    if !d && n > 2 && n < kernel::FD_BASE {
+                        // A real descriptor (from the pipe2(2) fallback) was
+                        // really duplicated: closed for real later.
+                        kernel::with(|k| k.foreign_fds.push(n));
+                    }
+                    let slot = self.w.add_fd(clone);
+                    ev!("h try_clone of fd-slot {f} -> fd-slot {slot} ({})", ops::canon_fd(n, d));
+                }
+                Err(e) => ev!("h try_clone of fd-slot {f} -> {}", crate::exec::err_code(&e)),
+            }
+            return;
+        }
         let sq = self.w.sq.clone();
         ev!("h stdio handle {which} created and dropped");
         alloc::a10(|| match which {
@@ -1032,7 +1163,7 @@ impl Engine {
             return;
         }
         stats::inc(C::probe_readbuf_edit);
-        let which = tape::choose(site::EDIT, 8);
+        let which = tape::choose(site::EDIT, 10);
         let pick_idx = |max: usize| -> usize {
             // Values around the interesting boundaries.
             match tape::choose(site::EDIT, 6) {
@@ -1113,6 +1244,25 @@ impl Engine {
                 });
                 hb.model.extend((0..n).map(|k| 0x70 + k as u8));
                 (Ok(()), Ok(()))
+            }
+            8 => {
+                // The `BufMut` trait's short-write append: goes through
+                // `parts_mut` + `set_init` like a kernel read would.
+                let extra = tape::choose(site::EDIT, cap as u32 + 3) as usize;
+                let data: Vec<u8> = (0..extra).map(|x| 0x90 + x as u8).collect();
+                let fits = extra.min(cap - len);
+                what = format!("BufMut::extend_from_slice({extra} bytes)");
+                let n = alloc::a10(|| a10::io::BufMut::extend_from_slice(&mut hb.buf, &data));
+                hb.model.extend_from_slice(&data[..fits]);
+                if n == fits { (Ok(()), Ok(())) } else { (Err(()), Ok(())) }
+            }
+            9 => {
+                // What a second read is told: the spare capacity as the trait
+                // reports it must be the slot's remainder, right behind the data.
+                what = "BufMut::parts_mut()".to_string();
+                let (ptr, n) = alloc::a10(|| unsafe { a10::io::BufMut::parts_mut(&mut hb.buf) });
+                let want_ptr = hb.base + len;
+                if ptr as usize == want_ptr && n as usize == cap - len { (Ok(()), Ok(())) } else { (Err(()), Ok(())) }
             }
             6 => {
                 what = "as_mut_slice() writes".to_string();
@@ -1500,8 +1650,9 @@ impl Engine {
             // Kernel finishes what it has.
             let r = self.ring_id;
             kernel::with(|k| {
-                if k.rings[r].sqpoll() {
-                    k.rings[r].sq_awake = true;
+                // A submission thread that went to sleep stays asleep until a10
+                // wakes it (IORING_ENTER_SQ_WAKEUP): that is not a fault.
+                if k.rings[r].sqpoll() && k.rings[r].sq_awake {
                     k.consume(r, u32::MAX);
                 }
                 for kid in k.completable(r) {
@@ -1536,7 +1687,18 @@ impl Engine {
                 let r = &k.rings[self.ring_id];
                 r.sq_pending() < r.sq_entries
             });
-            if recs.is_empty() && !unconsumed {
+            if unconsumed {
+                // C04: accepted into the queue, Ring::poll called again and
+                // again, and the kernel never got it (e.g. a sleeping
+                // submission thread that nobody wakes).
+                violation(
+                    "sq.lost",
+                    format!(
+                        "{} (op#{}): its submission was accepted into the queue but never reached the kernel although Ring::poll kept being called",
+                        t.name, t.id
+                    ),
+                );
+            } else if recs.is_empty() {
                 violation(
                     "wake.lost-queue-space",
                     format!(
@@ -1565,55 +1727,90 @@ impl Engine {
     /// before the descriptors they borrow, as safe code must); otherwise the
     /// ring goes last. Returns true if descriptors were dropped after the ring.
     pub fn teardown(&mut self, shuffle: bool) -> bool {
-        let mut groups = vec!['T', 'F', 'B', 'P', 'R'];
-        let mut order = Vec::new();
-        if shuffle {
-            while !groups.is_empty() {
-                let allowed: Vec<usize> = (0..groups.len())
-                    .filter(|i| groups[*i] != 'F' || !groups.contains(&'T'))
-                    .collect();
-                let j = allowed[tape::choose(site::DROP, allowed.len() as u32) as usize];
-                order.push(groups.remove(j));
-            }
-        } else {
-            order = groups;
+        // Everything that is left - each task, each descriptor, the signal
+        // handles, each held buffer, the pools, the Ring, and the harness's own
+        // queue handle (so that a future can be the last user of the ring) - is
+        // dropped in a drawn order. The only constraint is the borrow checker's:
+        // a descriptor (or signal handle) goes after the tasks that borrow it.
+        #[derive(Copy, Clone, PartialEq, Debug)]
+        enum Item {
+            Task(usize),
+            Fd(usize),
+            Signals,
+            Buf,
+            Pools,
+            Ring,
+            Queue,
         }
-        ev!("h teardown order {}", order.iter().collect::<String>());
-        trace(&[tag::DROP, 1000 + order.iter().position(|c| *c == 'R').unwrap() as u32]);
+        let mut items: Vec<Item> = Vec::new();
+        items.extend(self.live_tasks().into_iter().map(Item::Task));
+        items.extend(self.w.live_fds().into_iter().map(Item::Fd));
+        items.push(Item::Signals);
+        items.extend(self.bufs.iter().map(|_| Item::Buf));
+        items.push(Item::Pools);
+        items.push(Item::Ring);
+        items.push(Item::Queue);
+        if !shuffle {
+            // Tasks, descriptors, buffers, pools, then the Ring.
+            items.retain(|i| *i != Item::Queue);
+        }
         let mut ring_gone = false;
         let mut fds_after_ring = false;
-        for g in order {
-            match g {
-                'T' => {
-                    let mut live: Vec<usize> = self.live_tasks();
-                    while !live.is_empty() {
-                        let j = tape::choose(site::DROP, live.len() as u32) as usize;
-                        let i = live.remove(j);
-                        self.drop_task(i);
-                    }
+        let mut order = String::new();
+        while !items.is_empty() {
+            let allowed: Vec<usize> = (0..items.len())
+                .filter(|i| match items[*i] {
+                    Item::Fd(f) => !self.tasks.iter().any(|t| !t.dropped && t.fd == Some(f)),
+                    Item::Signals => !self.tasks.iter().any(|t| !t.dropped && t.kind.needs_signals()),
+                    _ => true,
+                })
+                .collect();
+            let j = if shuffle { allowed[tape::choose(site::DROP, allowed.len() as u32) as usize] } else { allowed[0] };
+            let item = items.remove(j);
+            match item {
+                Item::Task(i) => {
+                    order.push('T');
+                    self.drop_task(i);
                 }
-                'F' => {
+                Item::Fd(f) => {
+                    order.push('F');
+                    let fd = self.w.fds[f].take().unwrap();
+                    if ring_gone {
+                        fds_after_ring = true;
+                        stats::inc(C::probe_handle_used_after_ring_drop);
+                    }
+                    alloc::a10(|| drop(fd));
+                }
+                Item::Signals => {
+                    order.push('S');
                     let sigs = std::mem::take(&mut self.w.signals);
-                    alloc::a10(|| drop(sigs));
-                    for f in self.w.live_fds() {
-                        let fd = self.w.fds[f].take().unwrap();
-                        if ring_gone {
-                            fds_after_ring = true;
-                            stats::inc(C::probe_handle_used_after_ring_drop);
-                        }
-                        alloc::a10(|| drop(fd));
+                    if ring_gone && sigs.iter().any(Option::is_some) {
+                        fds_after_ring = true;
                     }
+                    alloc::a10(|| drop(sigs));
                 }
-                'B' => {
-                    while let Some(b) = self.bufs.pop() {
+                Item::Buf => {
+                    order.push('B');
+                    if let Some(b) = self.bufs.pop() {
                         alloc::a10(|| drop(b.buf));
                     }
                 }
-                'P' => {
+                Item::Pools => {
+                    order.push('P');
                     let pools = std::mem::take(&mut self.w.pools);
                     alloc::a10(|| drop(pools));
                 }
-                _ => {
+                Item::Queue => {
+                    order.push('Q');
+                    if !self.sq_dropped {
+                        self.sq_dropped = true;
+                        // SAFETY: never used again; `end` forgets it.
+                        alloc::a10(|| unsafe { std::ptr::drop_in_place(&mut self.w.sq) });
+                    }
+                }
+                Item::Ring => {
+                    order.push('R');
+                    trace(&[tag::DROP, 1000 + order.len() as u32]);
                     self.drop_ring();
                     if let Some(o) = self.w.other.take() {
                         alloc::a10(|| drop(o));
@@ -1622,6 +1819,7 @@ impl Engine {
                 }
             }
         }
+        ev!("h teardown order {order}");
         fds_after_ring
     }
 
@@ -1633,7 +1831,10 @@ impl Engine {
             }
             ev!("h drop ring (in flight: {inflight})");
             let old = kernel::set_cur(NO_OP, During::Other);
-            kernel::with(|k| k.in_ring_drop = true);
+            kernel::with(|k| {
+                k.in_ring_drop = true;
+                k.ring_drop_seen = true;
+            });
             alloc::a10(|| drop(ring));
             kernel::with(|k| k.in_ring_drop = false);
             kernel::set_cur(old.0, old.1);
@@ -1647,11 +1848,16 @@ impl Engine {
         let expect_clean_fds = quiesced && !ring_first;
         self.collect_alloc_violations();
         let r = self.ring_id;
+        let sq_dropped = self.sq_dropped;
         let Engine { w, tasks, bufs, .. } = self;
         drop(std::mem::ManuallyDrop::into_inner(tasks));
         drop(std::mem::ManuallyDrop::into_inner(bufs));
         let World { sq, .. } = std::mem::ManuallyDrop::into_inner(w);
-        alloc::a10(|| drop(sq));
+        if sq_dropped {
+            std::mem::forget(sq);
+        } else {
+            alloc::a10(|| drop(sq));
+        }
         final_checks(r, expect_clean_fds, ring_first);
     }
 
@@ -1694,6 +1900,7 @@ pub fn script_of(recs: &[OpRecord], expect: &ops::Expect) -> (Vec<Out>, bool, bo
 
 /// Final accounting once every handle is gone.
 pub fn final_checks(r: usize, expect_clean_fds: bool, ring_first: bool) {
+    kernel::with(|k| k.check_lost_submissions(r));
     {
         kernel::with(|k| k.refresh_ring_fds());
         let (maps, fd_closed, open_fds, slots, pbufs, inflight) = kernel::with(|k| {
@@ -1707,7 +1914,7 @@ pub fn final_checks(r: usize, expect_clean_fds: bool, ring_first: bool) {
                 ring.fd_closed,
                 k.open_fds(),
                 k.open_slots(r),
-                ring.pbufs.len(),
+                ring.pbufs.values().filter(|p| !p.refused).count(),
                 ring.inflight_count(),
             )
         });
@@ -1791,6 +1998,15 @@ pub fn final_checks(r: usize, expect_clean_fds: bool, ring_first: bool) {
             if !slots.is_empty() {
                 violation("fd.leak", format!("direct descriptor slot(s) never closed: {slots:?}"));
             }
+            // Real descriptors a10 owns (signalfd, pipe2(2) fallback): closed
+            // through the ring or close(2) like any other.
+            let real = kernel::with(|k| k.foreign_fds.len());
+            if real != 0 {
+                violation(
+                    "fd.leak",
+                    format!("{real} real descriptor(s) owned by a10 objects (signalfd, pipe2 fallback) were never closed"),
+                );
+            }
         }
     }
     for v in alloc::take_violations() {
@@ -1808,14 +2024,26 @@ pub fn check_leaks() {
             format!("{twice} of {created} user buffers handed to operations were dropped more than once"),
         );
     }
+    // What the kernel still owned when the Ring went away (the pages of a
+    // zero-copy send whose notification was outstanding) can never be
+    // reclaimed by a10: leaking it is the only safe outcome. Its own class.
+    let (surv, surv_ops) = kernel::with(|k| (k.survivor_blocks.clone(), k.survivor_ops));
     if never > 0 {
         violation(
-            "mem.leak",
+            if never as usize <= surv_ops { "mem.leak.kernel-owned-after-ring" } else { "mem.leak" },
             format!("{never} of {created} user buffers handed to operations were never dropped"),
         );
     }
     let leaks = alloc::leaks();
-    if !leaks.is_empty() {
+    if !leaks.is_empty() && leaks.iter().all(|l| surv.contains(&l.0)) {
+        violation(
+            "mem.leak.kernel-owned-after-ring",
+            format!(
+                "{} allocation(s) of {surv_ops} zero-copy send(s) whose notification was outstanding when the Ring was dropped are never freed (state and buffers stay marked as dropped for ever)",
+                leaks.len()
+            ),
+        );
+    } else if !leaks.is_empty() {
         let total: usize = leaks.iter().map(|l| l.1).sum();
         let mut sizes: Vec<usize> = leaks.iter().map(|l| l.1).collect();
         sizes.sort_unstable();
